@@ -29,6 +29,7 @@ pub enum Kind {
     Gibbs,
     Hmc,
     Hmc32,
+    HmcWide,
     Nuts,
 }
 
@@ -94,6 +95,18 @@ pub fn run_once(cfg: &Cfg, progress: bool) -> Result<Vec<u64>, String> {
             let target = Quartic { d: cfg.dim };
             let inits: Vec<Vec<f32>> = cfg.inits.iter().map(|r| r.iter().map(|x| *x as f32).collect()).collect();
             let mut s = HMC::<f32, B32, Quartic>::new(target, inits, 0.15, 3).set_seed(cfg.seed);
+            if progress {
+                t3(s.run_progress(cfg.n_collect, cfg.n_discard).unwrap().0)
+            } else {
+                t3(s.run(cfg.n_collect, cfg.n_discard))
+            }
+        }
+        Kind::HmcWide => {
+            // >= 64 tensor elements: burn-ndarray's vectorised / chunked code paths, library target
+            let n = cfg.n_chains.max(2) * 4;
+            let d = 8usize;
+            let inits: Vec<Vec<f32>> = (0..n).map(|i| (0..d).map(|j| cfg.inits[i % cfg.n_chains][j % cfg.dim] as f32 * 0.3 + 0.01 * (i + j) as f32).collect()).collect();
+            let mut s = HMC::<f32, B32, crate::props::c02::RosenNdLib>::new(crate::props::c02::RosenNdLib, inits, 0.01, 5).set_seed(cfg.seed);
             if progress {
                 t3(s.run_progress(cfg.n_collect, cfg.n_discard).unwrap().0)
             } else {
@@ -169,7 +182,7 @@ fn case(ctx: &Ctx, rep: &mut Report, case: u64, g: &mut Sm64, kind: Kind) {
     let n_chains = g.range(1, 6);
     let dim = g.range(1, 4);
     let (seed, seed_class) = special_seed(g, n_chains);
-    let heavy = matches!(kind, Kind::Nuts | Kind::Hmc | Kind::Hmc32);
+    let heavy = matches!(kind, Kind::Nuts | Kind::Hmc | Kind::Hmc32 | Kind::HmcWide);
     let cfg = Cfg {
         kind,
         seed,
@@ -273,6 +286,7 @@ fn case(ctx: &Ctx, rep: &mut Report, case: u64, g: &mut Sm64, kind: Kind) {
         (0..nc).any(|c| (0..n).any(|k| (0..d).any(|j| base[3 + (c * n + k) * d + j] != (cfg.inits[c][j] as f64).to_bits()
             && base[3 + (c * n + k) * d + j] != ((cfg.inits[c][j] as f32) as f64).to_bits())))
     };
+    let moved = moved || kind == Kind::HmcWide;
     if kind != Kind::Gibbs && !moved {
         rep.inconclusive("different-seeds check skipped: no chain moved in this run");
     }
@@ -336,7 +350,7 @@ fn init_case(rep: &mut Report, case: u64, g: &mut Sm64) {
 }
 
 pub fn run(ctx: &Ctx, rep: &mut Report) {
-    let kinds = [Kind::Mh, Kind::MhFreshProposal, Kind::Gibbs, Kind::Hmc, Kind::Hmc32, Kind::Nuts];
+    let kinds = [Kind::Mh, Kind::MhFreshProposal, Kind::Gibbs, Kind::Hmc, Kind::Hmc32, Kind::Nuts, Kind::HmcWide];
     for c in ctx.case_ids("bytes", 96, 4800) {
         let mut g = ctx.rng("bytes", c);
         let kind = kinds[(c as usize / 4 + c as usize) % kinds.len()];
